@@ -338,3 +338,82 @@ Proof.
 Qed.
 
 Print Assumptions resolve_honest_wins.
+
+(* ---------- the hard-coded control checkpoints ---------- *)
+Lemma In_combine_seq (cp : list Z) : forall (s i : nat) c,
+  In (i, c) (List.combine (seq s (length cp)) cp) <-> (s <= i)%nat /\ cp !! (i - s)%nat = Some c.
+Proof.
+  induction cp as [|x cp IH]; intros s i c; cbn [length seq List.combine].
+  - split; [intros []|intros [_ Hx]; discriminate].
+  - cbn [In]. rewrite IH. split.
+    + intros [[= <- <-]|[Hs Hl]].
+      * split; [lia|]. by rewrite Nat.sub_diag.
+      * split; [lia|]. replace (i - s)%nat with (S (i - S s)) by lia. done.
+    + intros [Hs Hl]. destruct (decide (i = s)) as [->|Hne].
+      * left. rewrite Nat.sub_diag in Hl. cbn in Hl. congruence.
+      * right. split; [lia|]. replace (i - s)%nat with (S (i - S s)) in Hl by lia. done.
+Qed.
+
+(* a list contradicts the table iff SOME entry - the first, any, the last -
+   sits at a control height and differs from the control value *)
+Lemma peer_hard_bad_spec hard cp :
+  peer_hard_bad hard cp = true <->
+  exists (i : nat) c w, cp !! i = Some c /\ hard (u32 ((Z.of_nat i + 1) * INTERVAL)) = Some w /\ w <> c.
+Proof.
+  unfold peer_hard_bad. rewrite existsb_exists. split.
+  - intros ([i c] & Hin & Hb). apply In_combine_seq in Hin as [_ Hl]. rewrite Nat.sub_0_r in Hl.
+    cbn [fst snd] in Hb. destruct (hard _) as [w|] eqn:Eh; [|discriminate].
+    exists i, c, w. split; [done|]. split; [done|]. apply negb_true_iff, Z.eqb_neq in Hb. done.
+  - intros (i & c & w & Hl & Hh & Hne). exists (i, c). split.
+    + apply In_combine_seq. split; [lia|]. by rewrite Nat.sub_0_r.
+    + cbn [fst snd]. rewrite Hh. by apply negb_true_iff, Z.eqb_neq.
+Qed.
+
+(* resolveConflict and the control table, for every set of lists, answers,
+   filters and map choices: the sender of a list that contradicts a control
+   checkpoint is banned, and the list returned contradicts none *)
+Theorem resolve_control H hard v env raws hint cps bans res :
+  resolve_conflict H hard v env raws hint cps = (bans, res) ->
+  (forall q l, In (q, l) cps -> peer_hard_bad hard l = true -> In q bans) /\
+  (forall l, res = Some l -> peer_hard_bad hard l = false).
+Proof.
+  unfold resolve_conflict, resolve_conflict_ix. cbv zeta.
+  set (bad0 := List.map fst (List.filter (fun c : Z * list Z => peer_hard_bad hard (snd c)) cps)).
+  set (cps1 := remove_peers bad0 cps).
+  assert (Hb0 : forall q l, In (q, l) cps -> peer_hard_bad hard l = true -> In q bad0).
+  { intros q l Hin Hb. unfold bad0. apply in_map_iff. exists (q, l). split; [done|]. by apply filter_In. }
+  assert (H1 : forall q l, In (q, l) cps1 -> peer_hard_bad hard l = false).
+  { intros q l Hq. apply remove_peers_In in Hq as [Hq Hm]. cbn in Hm. apply mem_false in Hm.
+    destruct (peer_hard_bad hard l) eqn:E; [|done]. exfalso. apply Hm. by apply (Hb0 q l). }
+  assert (Hok : forall bs r, (forall l, r = Some l -> exists q, In (q, l) cps1) ->
+            (forall q l, In (q, l) cps -> peer_hard_bad hard l = true -> In q (bad0 ++ bs)) /\
+            (forall l, r = Some l -> peer_hard_bad hard l = false)).
+  { intros bs r Hr. split.
+    - intros q l Hin Hb. rewrite in_app_iff. left. by apply (Hb0 q l).
+    - intros l Hl. destruct (Hr l Hl) as [q Hq]. by apply (H1 q l). }
+  assert (Hok0 : forall r, (forall l, r = Some l -> exists q, In (q, l) cps1) ->
+            (forall q l, In (q, l) cps -> peer_hard_bad hard l = true -> In q bad0) /\
+            (forall l, r = Some l -> peer_hard_bad hard l = false)).
+  { intros r Hr. destruct (Hok [] r Hr) as [A B]. split; [|done]. intros q l Hin Hb.
+    specialize (A q l Hin Hb). by rewrite app_nil_r in A. }
+  destruct cps1 as [|c1 r1] eqn:E1; [intros [= <- <-]; by apply Hok0|]. rewrite <- E1 in *. clear E1.
+  destruct (check_sanity cps1 v) as [|d|].
+  - intros [= <- <-]. apply Hok0. intros l Hl.
+    destruct (choose hint cps1) as [[q lq]|] eqn:Ec; cbn in Hl; [|discriminate]. injection Hl as <-.
+    exists q. by apply choose_In in Ec.
+  - set (cps2 := List.filter (fun c : Z * list Z => negb (zlen (snd c) <? d)) cps1).
+    destruct cps2 as [|c2 r2] eqn:E2; [intros [= <- <-]; by apply Hok0|]. rewrite <- E2 in *. clear E2.
+    destruct (get_headers v (u32 (d * INTERVAL)) raws) as [hs n].
+    destruct (negb (all_eq (List.map (fun c : Z * cfmsg => m_prev (snd c)) hs))); [intros [= <- <-]; by apply Hok0|].
+    destruct (settle_all env (u32 (d * INTERVAL)) hs (full_ix hs n) []) as [[hs'|] bans1];
+      [|intros [= <- <-]; by apply Hok].
+    match goal with |- context [check_sanity ?X v] => set (cps5 := X) end.
+    assert (H5 : forall q l, In (q, l) cps5 -> In (q, l) cps1).
+    { intros q l' Hq. unfold cps5 in Hq.
+      apply remove_peers_In in Hq as [Hq _]. apply remove_peers_In in Hq as [Hq _].
+      apply remove_peers_In in Hq as [Hq _]. by apply filter_In in Hq as [Hq _]. }
+    destruct (check_sanity cps5 v); try (intros [= <- <-]; by apply Hok).
+    destruct (choose hint cps5) as [[q lq]|] eqn:Ec; intros [= <- <-]; apply Hok; [|done].
+    intros l [= <-]. exists q. apply H5. by apply choose_In in Ec.
+  - intros [= <- <-]. by apply Hok0.
+Qed.
